@@ -112,6 +112,6 @@ theorem prog_noDrop (o : Op) (inp : Input) (h : drops o = false) : NoDropP (prog
     split at e <;> cases e
   case treePushValue => exact noDrop_map _ _ (fun i e => by cases e)
   case treePushTree => exact noDrop_map _ _ (fun i e => by cases e)
-  case parseRepetition => exact noDrop_map _ _ (fun i e => by cases e)
+  case eithSequenceError => split <;> (refine noDrop_of_allToRes ?_; all_to_res)
 
 end Fcppt.C05
